@@ -3,4 +3,5 @@ INVARIANT NoWindIsAirspeed
 INVARIANT TriangleBounds
 INVARIANT TailHead
 INVARIANT Rotation
+INVARIANT ExplicitHeadingWins
 CHECK_DEADLOCK FALSE
